@@ -229,6 +229,7 @@ func xmlEscape(s string) string {
 	s = strings.ReplaceAll(s, "&", "&amp;")
 	s = strings.ReplaceAll(s, "<", "&lt;")
 	s = strings.ReplaceAll(s, ">", "&gt;")
+	s = strings.ReplaceAll(s, "\"", "&quot;")
 	return s
 }
 
@@ -331,14 +332,14 @@ func (g *Graph) renderScope(b *strings.Builder, scope, ind string) {
 				if len(n.Headers) > 0 {
 					fmt.Fprintf(b, "%s    <olive:taskHeaders>\n", ind)
 					for _, p := range n.Headers {
-						fmt.Fprintf(b, `%s      <olive:header name="%s"%s/>`+"\n", ind, p.Name, itemAttrs(p))
+						fmt.Fprintf(b, `%s      <olive:header name="%s"%s/>`+"\n", ind, xmlEscape(p.Name), itemAttrs(p))
 					}
 					fmt.Fprintf(b, "%s    </olive:taskHeaders>\n", ind)
 				}
 				if len(n.Props) > 0 {
 					fmt.Fprintf(b, "%s    <olive:properties>\n", ind)
 					for _, p := range n.Props {
-						fmt.Fprintf(b, `%s      <olive:property name="%s"%s/>`+"\n", ind, p.Name, itemAttrs(p))
+						fmt.Fprintf(b, `%s      <olive:property name="%s"%s/>`+"\n", ind, xmlEscape(p.Name), itemAttrs(p))
 					}
 					fmt.Fprintf(b, "%s    </olive:properties>\n", ind)
 				}
